@@ -6,7 +6,7 @@ cd /repo || exit 2
 if ! git diff --quiet; then echo "/repo has uncommitted changes; refusing"; exit 2; fi
 git apply "$patch" || { echo "patch does not apply"; exit 2; }
 for p in "$@"; do
-  out=$(cd /verif && ./check "$p" --tier quick 2>&1)
+  out=$(cd /verif && GT_EVIDENCE_DIR=/verif/work/evidence_scratch ./check "$p" --tier quick 2>&1)
   code=$?
   echo "== $p exit=$code"
   echo "$out" | grep -E "VIOLATION|KNOWN-FINDING|INFRA|seed=" | cut -c1-220 | head -8
